@@ -26,7 +26,7 @@ int main(int argc, char** argv)
                 const UnitSystem us(ut);
                 for (const auto& [nm, ms] : pairs) {
                     const double a = us.getDimension(nm).getSIScaling(), b = us.getDimension(ms).getSIScaling();
-                    if (!Replay::close(a, b)) { std::ostringstream w; w.precision(12); w << us.getName() << ": the string dimension \"" << nm << "\" has the SI factor " << a << ", the measure table gives " << b; return r.verdict(false, w.str()); }
+                    if (std::fabs(a - b) > 1e-9 * std::max(std::fabs(a), std::fabs(b))) { std::ostringstream w; w.precision(12); w << us.getName() << ": the string dimension \"" << nm << "\" has the SI factor " << a << ", the measure table gives " << b; return r.verdict(false, w.str()); }
                     for (double v : {0.0, 1.0, 100.5, -40.0}) if (!Replay::close(us.from_si(ms, us.to_si(ms, v)), v, 1.0)) return r.verdict(false, us.getName() + std::string(": from_si(to_si(v)) != v for measure of ") + nm);
                 }
             }
@@ -46,7 +46,7 @@ int main(int argc, char** argv)
             const double a = us.getDimension(name).getSIScaling(), b = us.getDimension(meas.at(name)).getSIScaling();
             std::ostringstream w; w.precision(12);
             w << sys << ": the string dimension \"" << name << "\" has the SI factor " << a << ", the measure table of the same system gives " << b;
-            return r.verdict(Replay::close(a, b), w.str());
+            return r.verdict(std::fabs(a - b) <= 1e-9 * std::max(std::fabs(a), std::fabs(b)), w.str());
         }
     }
     const int m = (int)r.integer("m");
